@@ -66,7 +66,7 @@ def _(c):
     c.ensure('histogram', val.eq(list(a.dacc), list(b.dacc)))
     c.ensure('window', land(val.eq([x for x in a.seen[-4:] if x is not None], [x for x in b.seen[-4:] if x is not None]), [x is None for x in a.seen[-4:]] == [x is None for x in b.seen[-4:]]))
 
-@obligation(P, 'Nilsimsa/digest-concrete', cls='B', bound='seeded messages of 0..200 bytes, every cut in a sample; digests compared', cases={'seed': [1, 2, 3]}, funcs=['crysp.nilsimsa.Nilsimsa.digest', 'crysp.nilsimsa.Nilsimsa.__call__'])
+@obligation(P, 'Nilsimsa/digest-concrete', cls='B', native=True, bound='seeded messages of 0..200 bytes, every cut in a sample; digests compared', cases={'seed': [1, 2, 3]}, funcs=['crysp.nilsimsa.Nilsimsa.digest', 'crysp.nilsimsa.Nilsimsa.__call__'])
 def _(c):
     import random
     r = random.Random(c.case('seed'))
